@@ -101,6 +101,9 @@ impl<A: Clone> RangeMap<A> {
         let mut range2 = ranges2_iter.next();
 
         loop {
+            #[cfg(feature = "verif")]
+            crate::verif::tick("RangeMap::insert_ranges");
+
             match (&mut range1, &mut range2) {
                 (Some(ref mut range1_), Some(ref mut range2_)) => {
                     // - No overlap: push the range that comes first, increment its iterator
@@ -202,6 +205,9 @@ impl<A: Clone> RangeMap<A> {
         let mut range_iter = old_ranges.into_iter();
 
         while let Some(range) = range_iter.next() {
+            #[cfg(feature = "verif")]
+            crate::verif::tick("RangeMap::insert");
+
             if range.end < new_range_start {
                 new_ranges.push(range);
             } else if range.start > new_range_end {
@@ -301,6 +307,9 @@ impl<A: Clone> RangeMap<A> {
         let mut old_range = old_ranges_iter.next();
 
         loop {
+            #[cfg(feature = "verif")]
+            crate::verif::tick("RangeMap::remove_ranges");
+
             match (&mut old_range, removed_range) {
                 (Some(ref mut old_range_), Some(removed_range_)) => {
                     if old_range_.end < removed_range_.start {
